@@ -530,7 +530,12 @@ class CatalogWriter(AbstractContextManager, HandlesDataChunk):
             raise ValueError(f"patch with ID {patch_id} contains no data")
 
         patch_ids = np.fromiter(self.writers.keys(), dtype=np.int16)
-        np.sort(patch_ids).tofile(self.cache_directory / PATCH_INFO_FILE)
+        # the ID list marks the cache as complete and must appear at once: long
+        # lists reach the disk in several pieces, so write them elsewhere first
+        path = self.cache_directory / PATCH_INFO_FILE
+        temp_path = path.with_suffix(".tmp")
+        np.sort(patch_ids).tofile(temp_path)
+        temp_path.replace(path)
 
 
 def write_patches_unthreaded(
